@@ -16,3 +16,14 @@ def is_harness_limit(res):
 def fired_stats(res, stats):
     for k, v in (res.sim.fired or {}).items():
         stats["fault_F1_%s" % k] = stats.get("fault_F1_%s" % k, 0) + v
+
+
+def args_violation(case, tables):
+    """The extra positional arguments (trans_time_args, rec_time_args,
+    trans_and_rec_time_args, args) must reach the user's functions unchanged."""
+    if tables is None or not getattr(tables, "bad_args", None):
+        return []
+    which, got, want = tables.bad_args[0]
+    return [V("callback_args", "%s/extra-arguments-not-forwarded" % case["sim"],
+              "the user's %s function received extra arguments %r, the caller passed %r (%d such calls)"
+              % (which, got, want, len(tables.bad_args)), case)]
